@@ -43,15 +43,19 @@ abbrev Rec := Task → M Unit
 
 def freshId : M Nat := fun s => (s.nextId, { s with nextId := s.nextId + 1 })
 
+def pushFrame (f : Frame) : M Unit := modS fun s => { s with frames := s.frames ++ [f] }
+def pushSleeper (sl : Sleeper) : M Unit := modS fun s => { s with sleepers := s.sleepers ++ [sl] }
+def pushTop (t : TopFut) : M Unit := modS fun s => { s with tops := s.tops ++ [t] }
+
 def newFrame (k : Kont) (parent : Waiter) : M Nat := do
   let fid ← freshId
-  modS fun s => { s with frames := s.frames ++ [{ fid := fid, k := k, parent := parent }] }
+  pushFrame { fid := fid, k := k, parent := parent }
   pure fid
 
 def addSleeper (ms : Nat) (w : Waiter) : M Unit := do
   let sid ← freshId
   let now ← nowMs
-  modS fun s => { s with sleepers := s.sleepers ++ [{ sid := sid, deadline := now + ms, waiter := w }] }
+  pushSleeper { sid := sid, deadline := now + ms, waiter := w }
 
 def isExc : Val → Bool
   | .exc _ => true
@@ -119,7 +123,7 @@ def enqueue (r : Ready) : M Unit := modS fun s => { s with ready := s.ready ++ [
 
 def newTop (cbs : List TopCb) : M Nat := do
   let tid ← freshId
-  modS fun s => { s with tops := s.tops ++ [{ tid := tid, cbs := cbs }] }
+  pushTop { tid := tid, cbs := cbs }
   pure tid
 
 /-- the future `tid` is done with value `v`: it leaves the table, its outcome is remembered -/
@@ -150,6 +154,19 @@ def runTopCb (v : Val) : TopCb → M Unit
     | _ => pure ()
   | .popProc wuid pid => popPid wuid pid
 
+/-- a top-level future completes: its done-callbacks are scheduled (`release` of a future that is
+    still being awaited synchronously by `util.synchronized` runs in place) -/
+def deliverTop (tid : Nat) (v : Val) : M Unit := do
+  let s ← getS
+  match s.tops.find? (·.tid = tid) with
+  | none => pure ()
+  | some t =>
+    finishTop tid v
+    for cb in t.cbs do
+      match cb, t.armed with
+      | .release, false => runTopCb v .release
+      | cb, _ => enqueue (.topCb cb v)
+
 /-- hand a coroutine result to whoever waits for it.  A waiter that is still on the Python
     stack (not yet `armed`) continues synchronously; otherwise the continuation is a callback
     on the event loop's ready queue. -/
@@ -157,16 +174,7 @@ def deliver (rec : Rec) (w : Waiter) (v : Val) : M Unit := do
   match w with
   | .none => pure ()
   | .callback n => enqueue (.callback n)
-  | .top tid =>
-    let s ← getS
-    match s.tops.find? (·.tid = tid) with
-    | none => pure ()
-    | some t =>
-      finishTop tid v
-      for cb in t.cbs do
-        match cb, t.armed with
-        | .release, false => runTopCb v .release       -- util.synchronized: future already done, released in place
-        | cb, _ => enqueue (.topCb cb v)
+  | .top tid => deliverTop tid v
   | .frame fid slot =>
     let s ← getS
     match s.frames.find? (·.fid = fid) with
